@@ -49,12 +49,12 @@ def _gen_meta_crit(ch: Chooser, key: str, values: list[str]) -> Optional[dict[st
 def _gen_value_crit(ch: Chooser) -> Any:
     kind = ch.weighted([('value', 3), ('present', 1), ('absent', 1), ('callback', 1)])
     if kind == 'value':
-        return ch.choice([1, 2])
+        return ch.choice([0, 1, 2])
     if kind == 'present':
         return PRESENT
     if kind == 'absent':
         return ABSENT
-    return {'__cb__': True, 'in': ch.sample([1, 2, None], 2)}
+    return {'__cb__': True, 'in': ch.sample([0, 1, 2, None], 2)}
 
 
 def gen_plan(ch: Chooser, tier: str) -> dict[str, Any]:
@@ -105,7 +105,7 @@ def gen_plan(ch: Chooser, tier: str) -> dict[str, Any]:
         spec: dict[str, Any] = {}
         for k in ('a', 'b'):
             if ch.bool(0.6):
-                spec[k] = ch.choice([1, 2])
+                spec[k] = ch.choice([0, 1, 2])
         if ch.bool(0.5):
             spec['flag'] = ch.bool()
         meta: dict[str, Any] = {'name': name}
@@ -126,7 +126,7 @@ def gen_plan(ch: Chooser, tier: str) -> dict[str, Any]:
         what = ch.weighted([('a', 3), ('b', 3), ('flag', 1.5), ('tier', 2), ('note', 1.5), ('watch', 1.0), ('two', 1.5)])
         patch: dict[str, Any]
         if what in ('a', 'b'):
-            patch = {'spec': {what: ch.choice([1, 2, None])}}
+            patch = {'spec': {what: ch.choice([0, 1, 2, None])}}
         elif what == 'flag':
             patch = {'spec': {'flag': ch.choice([True, False, None])}}
         elif what == 'tier':
@@ -138,7 +138,7 @@ def gen_plan(ch: Chooser, tier: str) -> dict[str, Any]:
                 continue
             patch = {'metadata': {'labels': {'watch': ch.choice(['yes', None])}}}
         else:
-            patch = {'spec': {'a': ch.choice([1, 2, None]), 'b': ch.choice([1, 2, None])}}
+            patch = {'spec': {'a': ch.choice([0, 1, 2, None]), 'b': ch.choice([0, 1, 2, None])}}
         actions.append({'t': round(ch.float(1.0, horizon), 6), 'do': 'patch', 'name': name, 'patch': patch})
     actions.sort(key=lambda a: a['t'])
     return {
